@@ -239,6 +239,12 @@ def IR.GetField (ir : IR) (m : Owner) (path : List Name) : Option FNode :=
 def boardish (n : Name) : Bool :=
   inTable boardKeywords (fold n.s) || fold n.s == "classes".toList || fold n.s == "vars".toList
 
+/-- the reference recorded on a traversed field when the call carries a RefContext -/
+def refList (ref : Option (Option Nat × Owner)) (pos : Nat) : List Ref :=
+  match ref with
+  | some (c, sc) => [{ ctx := c, scope := sc, pos := pos }]
+  | none => []
+
 /-- `ensureField` from path element `i` on; `ref` is recorded on every traversed field when the call carries a RefContext -/
 def IR.ensureField (ir : IR) (m : Owner) (path : List Name) (ref : Option (Option Nat × Owner)) (create : Bool) :
     IR × Except Err (Option Nat) :=
@@ -248,9 +254,7 @@ def IR.ensureField (ir : IR) (m : Owner) (path : List Name) (ref : Option (Optio
     if boardish head then (ir, .error (.gap "board keyword / classes / vars")) else
     if !head.q && head.resLower && !inTable compositeReserved (fold head.s) && !rest.isEmpty then (ir, .error .lastPart) else
     if head.isUnderscore then (ir, .error .underscore) else
-    let mkRef : List Ref := match ref with
-      | some (c, sc) => [{ ctx := c, scope := sc, pos := head.pos }]
-      | none => []
+    let mkRef : List Ref := refList ref head.pos
     match ir.findIn m head with
     | some f =>
       let ir := ir.updField f.id fun f => { f with refs := f.refs ++ mkRef }
